@@ -49,7 +49,7 @@ struct T {
   void* (*fn)(void*) = nullptr; void* arg = nullptr; void* ret = nullptr;
   int wait = W_NONE; const void* obj = nullptr; int joinTarget = -1;
   long long deadline = -1; bool timedOut = false; bool joined = false;
-  long spin = 0; int prio = 0;
+  long spin = 0; long spinRun = 0; int prio = 0;
 };
 struct M { const void* addr = nullptr; int owner = -1; int depth = 0; bool recursive = false; bool destroyed = false; };
 struct C { const void* addr = nullptr; bool destroyed = false; };
@@ -169,11 +169,18 @@ void switchTo(int next) {
 void yieldPoint(bool spinLike = false) {
   if (!g_active || tl_id < 0) return;
   if (++st.decisions > cfg.stepBound) verdict(V_STEP_BOUND, "step bound exceeded");
-  if (spinLike) ++th[tl_id].spin;
+  if (spinLike) {
+    ++th[tl_id].spin;
+    // livelock: this thread polls a location again and again while no other thread can run (and no deadline is pending)
+    if (++th[tl_id].spinRun > 30000) {
+      bool other = false; for (int i = 0; i < nth; ++i) if (i != tl_id && (th[i].state == T_RUNNABLE || (th[i].state == T_BLOCKED && th[i].deadline >= 0))) other = true;
+      if (!other) verdict(V_DEADLOCK, "livelock: the only runnable thread keeps polling without progress");
+    }
+  }
   int next = pickNext(false);
   if (next >= 0) switchTo(next);
 }
-void progress() { if (tl_id >= 0) th[tl_id].spin = 0; }
+void progress() { if (tl_id >= 0) { th[tl_id].spin = 0; th[tl_id].spinRun = 0; } }
 // which logical thread touched an atomic / volatile location last: consecutive operations by different threads on one
 // location are the interleavings the schedule-quantified properties are about
 struct Loc { const volatile void* a; int t; }; Loc locs[512]; int nlocs = 0;
